@@ -875,6 +875,13 @@ fn run_one(text: &str) {
                     verdict.push(format!("{} trees, expected at least {n}", md.roots.len()));
                 }
             }
+            "expect_n_trees" => {
+                let md = db.remap_data_type::<MetadataCodec>().get(&wtxn, &Key::metadata(index)).unwrap().unwrap();
+                let n: usize = tok[1].parse().unwrap();
+                if md.roots.len() != n {
+                    verdict.push(format!("{} trees after the build, {n} were requested explicitly", md.roots.len()));
+                }
+            }
             other => panic!("unknown scenario step {other}"),
         }
     }
